@@ -173,7 +173,7 @@ package stream
 //@ ensures.once[C05,C13] any ==> calls(metadata.Metadata.Save) == 1 && arg(metadata.Metadata.Save, 0, recv) == old(s.metadata) && arg(metadata.Metadata.Save, 0, bucketUUID) == s.bucketUUID
 //@ ensures.dumpdom[C01,C02] any ==> forall vb uint16 :: has(state, vb) == old(has(st.offsets, vb))
 //@ ensures.dump[C01,C02,C06] any ==> forall vb uint16 :: has(state, vb) ==> state[vb] != nil && state[vb].Checkpoint != nil && state[vb].Checkpoint.Snapshot != nil && state[vb].Checkpoint.VbUUID == old(st.offsets[vb].VbUUID) && state[vb].Checkpoint.SeqNo == old(st.offsets[vb].SeqNo) && state[vb].Checkpoint.Snapshot.StartSeqNo == old(st.offsets[vb].StartSeqNo) && state[vb].Checkpoint.Snapshot.EndSeqNo == old(st.offsets[vb].EndSeqNo)
-//@ ensures.dirtydump[C05] any ==> forall vb uint16 :: has(dump, vb) == old(has(st.dirtyOffsets, vb)) && (has(dump, vb) ==> dump[vb] == old(st.dirtyOffsets[vb]))
+//@ ensures.dirtydump[C05,C13] any ==> forall vb uint16 :: has(dump, vb) == old(has(st.dirtyOffsets, vb)) && (has(dump, vb) ==> dump[vb] == old(st.dirtyOffsets[vb]))
 //@ ensures.interference[C05] any ==> (forall vb uint16 :: old(has(st.offsets, vb)) ==> at(mid, has(st.offsets, vb) && st.offsets[vb].SeqNo >= old(st.offsets[vb].SeqNo))) && (forall vb uint16 :: old(has(st.dirtyOffsets, vb) && st.dirtyOffsets[vb]) ==> at(mid, has(st.dirtyOffsets, vb) && st.dirtyOffsets[vb])) && at(mid, st.anyDirtyOffset)
 //@ ensures.forget_only_stored[C05,C13] saved ==> forall vb uint16 :: at(mid, has(st.dirtyOffsets, vb) && st.dirtyOffsets[vb]) && !(old(has(st.dirtyOffsets, vb) && st.dirtyOffsets[vb] && has(st.offsets, vb)) && at(mid, st.offsets[vb].SeqNo) == old(st.offsets[vb].SeqNo)) ==> has(st.dirtyOffsets, vb) && st.dirtyOffsets[vb] && st.anyDirtyOffset
 //@ ensures.forget_stored[C05] saved ==> forall vb uint16 :: old(has(st.dirtyOffsets, vb) && st.dirtyOffsets[vb] && has(st.offsets, vb)) && at(mid, st.offsets[vb].SeqNo) == old(st.offsets[vb].SeqNo) ==> !has(st.dirtyOffsets, vb)
@@ -261,7 +261,7 @@ package stream
 //@ ensures.closed_gives_up[C11] old(s.observers) == nil ==> n == 0
 //@ ensures.open_tries[C12] old(s.observers) != nil ==> n >= 1
 //@ ensures.bounded[C12,C15] n <= 5
-//@ ensures.until_success[C12] n >= 1 ==> (forall i int :: 0 <= i && i < n - 1 ==> dret("stream.(*stream).openStream", i, 0) != nil) && (dret("stream.(*stream).openStream", n - 1, 0) == nil || s.observers == nil)
+//@ ensures.until_success[C12,C15] n >= 1 ==> (forall i int :: 0 <= i && i < n - 1 ==> dret("stream.(*stream).openStream", i, 0) != nil) && (dret("stream.(*stream).openStream", n - 1, 0) == nil || s.observers == nil)
 //@ ensures.same_vb[C12] forall i int :: 0 <= i && i < n ==> darg("stream.(*stream).openStream", i, vbID) == vbID && darg("stream.(*stream).openStream", i, s) == s
 //@ onpanic.exhausted[C11,C15] n == 5 && (forall i int :: 0 <= i && i < 5 ==> dret("stream.(*stream).openStream", i, 0) != nil) && s.observers != nil
 //@ modifies calls("stream.(*stream).openStream"), calls(couchbase.Client.OpenStream)
@@ -404,3 +404,29 @@ package stream
 //@ ensures.done[C11] !s.balancing && !held(s.rebalanceLock)
 //@ ensures.counted[C16] s.metric.Rebalance == old(s.metric.Rebalance) + 1 || old(s.metric.Rebalance) == 9223372036854775807
 //@ modifies s.balancing, mutex(s.rebalanceLock), s.metric.Rebalance, s.streamFinishedWithCloseCh, s.streamFinishedWithEndEventCh, s.vbIDRange, s.rollbackMitigation, s.config.RollbackMitigation.Disabled, atomic(s.activeStreams), s.checkpoint, s.offsets, s.dirtyOffsets, s.anyDirtyOffset, s.observers, s.open, chan(s.finishStreamWithCloseCh), chan(s.finishStreamWithEndEventCh), calls(select.case), calls(models.EventHandler.BeforeStreamStart), calls(models.EventHandler.AfterStreamStart), calls(models.EventHandler.BeforeRebalanceEnd), calls(models.EventHandler.AfterRebalanceEnd), calls(stream.VBucketDiscovery.Get), calls(stream.Checkpoint.Load), calls("stream.(*stream).Open"), calls("stream.(*stream).openAllStreams"), calls("go:stream.(*stream).openAllStreams$1"), calls("go:stream.(*stream).wait"), calls(stream.Checkpoint.StartSchedule), calls(couchbase.RollbackMitigation.Start), calls("wrapper.(*ConcurrentSwissMap).Range")
+
+// ---------- version gate: serial stream closing below 5.5.0 (C18) ----------
+
+//@ func NewStream
+//@ props C18
+//@ requires version != nil
+//@ let below = lexGreater(5, 5, 0, 0, version.Major, version.Minor, version.Patch, version.Build)
+//@ ensures.serial_close_gate[C18] typeis(result, "*stream") && (as(result, "*stream").streamEndNotSupportedData != nil) == below
+//@ ensures.wired typeis(result, "*stream") && as(result, "*stream").client == client && as(result, "*stream").metadata == metadata && as(result, "*stream").config == config && as(result, "*stream").stopCh == stopCh && as(result, "*stream").vBucketDiscovery == vBucketDiscovery
+//@ modifies nothing
+
+// ---------- membership type switch (C15, C10) ----------
+
+//@ func NewVBucketDiscovery
+//@ props C15 C10
+//@ requires config != nil && logger.Log != nil && bus != nil
+//@ requires config.Dcp.Group.Membership.Type == "couchbase" ==> client != nil
+//@ let ty = config.Dcp.Group.Membership.Type
+//@ panics.unknown_membership[C15] ty != "static" && ty != "couchbase" && ty != "kubernetesStatefulSet" && ty != "kubernetesHa" && ty != "dynamic"
+//@ ensures.static[C15,C10] ty == "static" ==> typeis(as(result, "*vBucketDiscovery").membership, "*membership.staticMembership")
+//@ ensures.couchbase[C15,C10] ty == "couchbase" ==> typeis(as(result, "*vBucketDiscovery").membership, "*couchbase.cbMembership")
+//@ ensures.statefulset[C15,C10] ty == "kubernetesStatefulSet" ==> typeis(as(result, "*vBucketDiscovery").membership, "*kubernetes.statefulSetMembership")
+//@ ensures.ha[C15,C10] ty == "kubernetesHa" ==> typeis(as(result, "*vBucketDiscovery").membership, "*kubernetes.haMembership")
+//@ ensures.dynamic[C15,C10] ty == "dynamic" ==> typeis(as(result, "*vBucketDiscovery").membership, "*membership.dynamicMembership")
+//@ ensures.shape[C15] typeis(result, "*vBucketDiscovery") && as(result, "*vBucketDiscovery").vBucketNumber == vBucketNumber && as(result, "*vBucketDiscovery").membership != nil
+//@ modifies calls(EventBus.Bus.SubscribeAsync), calls("kubernetes.getPodOrdinalFromHostname"), calls("couchbase.(*cbMembership).register"), calls("couchbase.(*cbMembership).createIndex"), calls("couchbase.CreatePath"), calls("couchbase.UpdateDocument"), calls("couchbase.CreateDocument"), calls("gocbcore.(*Agent).MutateIn"), calls("gocbcore.(*Agent).Set"), calls(couchbase.AsyncOp.Wait), calls(gocbcore.PendingOp.Cancel), calls(select.case), calls(couchbase.Client.GetMetaAgent), calls("couchbase.(*cbMembership).startHeartbeat"), calls("couchbase.(*cbMembership).startMonitor"), calls("time.(Time).UnixNano")
